@@ -19,7 +19,8 @@ WORKERS = {"quick": 4, "thorough": 16}
 REQUIRED = {"alias-used-in>=2-blocks": 20, "alias-with-defined-param-used-in>=2-blocks": 10, "alias-used>=2x-in-one-block": 10, "definition-after-use": 20,
             "redefinition:Define": 20, "redefinition:ModelAlias": 10, "negated-use": 20, "negated-use-of-negative-value": 5, "plus-prefixed-word-stays": 10,
             "undefined-word-stays": 20, "use-in-copied-table": 10, "use-in-conjugated-table": 10, "define-used>=4x": 10, "expanded-text-parsed": 50,
-            "alias-with-photos": 5, "define-unused": 5}
+            "alias-with-photos": 5, "define-unused": 5, "second-parse-same-instance": 20, "alias-name-extends-a-published-model-name": 20}
+PUBLISHED_PREFIXES = ("ISGW2", "HQET2", "SLPOLE", "PHSP", "SLBKPOLE", "VSS", "ISGW", "HQET")
 ASSUMPTIONS = ["Define'd names do not start with '-' or '+' (they may end in a sign); a ModelAlias stands for a published model (not for another alias)"]
 
 
@@ -34,7 +35,10 @@ def gen_file(ctx):
         defines.append({"k": "Define", "name": n, "value": g.numlit()})
         if r.random() < 0.35:
             defines.append({"k": "Define", "name": n, "value": r.choice(["0.25", "-1.5", "3", "7e-1"])})
-    an = r.sample(["MA0", "MyVSS", "AliasX", "slpole_1", "HQETtune"], r.choice([0, 1, 2, 3, 4]))
+    # alias names, also ones that extend a published model name by a digit / underscore / letters (one word of the language all the same)
+    an = r.sample(["MA0", "MyVSS", "AliasX", "slpole_1", "HQETtune", "ISGW2_Dstlnu", "HQET2_Dlnu", "SLPOLE2", "PHSP_1", "SLBKPOLE_DtoKlnu", "VSS1", "ISGW22", "PHSP0"],
+                  r.choice([0, 1, 2, 3, 4, 6]))
+    an = [n for n in an if L.label_ok(n, g.models)]
     aliases = []
 
     def plist(k):
@@ -153,6 +157,8 @@ def classify(ctx, stmts, exp):
                 ps = mal[ln["model"]]["params"]
                 if ln["photos"]:
                     ctx.hit("alias-with-photos")
+                if any(ln["model"].startswith(pm) and ln["model"] != pm for pm in PUBLISHED_PREFIXES):
+                    ctx.hit("alias-name-extends-a-published-model-name")
                 first_use = i if first_use is None else first_use
             for p in ps:
                 w = p[1:] if p[0] in "-+" else p
@@ -215,6 +221,21 @@ def check(ctx, stmts, workload="gen"):
         if mech in ("globals:dict_definitions", "globals:dict_model_aliases", "globals:dict_definitions:raised", "globals:dict_model_aliases:raised"):
             ctx.violate(mech, msg, wit)
     ctx.mon("C05.last_definition_reported")
+    if ctx.rng.random() < 0.35:
+        # the same object parsed again (supported; it only warns): uses are expanded again, to the same tables
+        import warnings  # noqa: PLC0415
+
+        ctx.hit("second-parse-same-instance")
+
+        def again():
+            with warnings.catch_warnings():
+                warnings.simplefilter("ignore")
+                p.parse()
+            return snapshot.compare_tables(p, exp)
+
+        ok2, bad = ctx.guard("second-parse", wit, again)
+        for mech, msg in (bad or []):
+            ctx.violate("after-second-parse:" + mech, msg, wit)
     # metamorphic: textual expansion
     drop = ctx.rng.random() < 0.5
     text2 = L.render(expand(stmts, drop))
